@@ -322,7 +322,11 @@ def same(x, y, label, goals, seen=None):
         for i, (a, b) in enumerate(zip(x, y)):
             same(a, b, f'{label}[{i}]', goals, seen)
         return
-    from .interp import SeqVal
+    from .interp import SeqVal, SRange
+    if isinstance(x, SRange) and isinstance(y, SRange):
+        for a in ('start', 'stop', 'step'):
+            same(getattr(x, a), getattr(y, a), f'{label}.{a}', goals, seen)
+        return
     if isinstance(x, SeqVal) and isinstance(y, SeqVal):
         goals.add(label + ':count', sym.eq(x.n, y.n))
         if sym.have_ctx():
@@ -672,7 +676,13 @@ def _one_path(interp, c, fn, shape, ctx, clauses, stats):
         if r == 'unsat':
             cr.unsat += 1
         elif r == 'sat':
-            cr.sat.append((stats['paths'], _concretize(S1, m), f'{label} {detail}'.strip()))
+            vals = _concretize(S1, m)
+            if '__error__' in vals or _too_big(vals):
+                # ask for a small counter-model (short views, small integers): easier to replay and to read
+                m2 = _small_model(ctx, g, S1)
+                if m2 is not None:
+                    vals = _concretize(S1, m2)
+            cr.sat.append((stats['paths'], vals, f'{label} {detail}'.strip()))
         else:
             cr.unknown += 1
     if ctx.bounded:
@@ -691,6 +701,28 @@ def _record_side(ctx, clauses, stats, S1):
         else:
             cr.unknown += 1
     ctx.side_obligations = []
+
+
+def _too_big(vals):
+    return any((isinstance(v, list) and len(v) > 96) or (isinstance(v, int) and not isinstance(v, bool) and abs(v) > 10 ** 6) for v in vals.values())
+
+
+def _small_model(ctx, g, S):
+    g = g.term if isinstance(g, SBool) else (z3.BoolVal(bool(g)) if isinstance(g, bool) else g)
+    for bound in (16, 64):
+        ctx.solver.push()
+        try:
+            ctx.solver.add(z3.Not(g))
+            for name, d in S.decls.items():
+                if d[0] == 'view':
+                    ctx.solver.add(z3.Int(name + '.n') <= bound)
+                elif d[0] == 'int':
+                    ctx.solver.add(z3.And(z3.Int(name) <= 4 * bound, z3.Int(name) >= -4 * bound))
+            if str(ctx.solver.check()) == 'sat':
+                return ctx.solver.model()
+        finally:
+            ctx.solver.pop()
+    return None
 
 
 def _concretize(S, m):
